@@ -24,7 +24,7 @@ type modSpec struct {
 	v     *Term
 	elemS *Sort // slice element sort / pointee sort / map key sort
 	valS  *Sort // map value sort
-	typ   types.Type // pointee type (ptr)
+	typ   types.Type // pointee type (ptr) / slice element type (tail, elems)
 }
 
 type contractRun struct {
@@ -311,7 +311,7 @@ func (c *VC) convert(st *State, arg ast.Expr, to types.Type, call *ast.CallExpr)
 				// []byte(s): fresh row holding s's array
 				base := st.alloc
 				st.alloc = c.name("alloc", mk("+", sortInt, st.alloc, intLit64(1)))
-				hn, h := c.sliceHeap(st, c.byteSort())
+				hn, h := c.sliceHeap(st, types.Typ[types.Uint8])
 				st.heaps[hn] = mkStore(h, base, mkField(v, "st_arr"))
 				ln := mkField(v, "st_len")
 				// an empty string converts to an empty non-nil slice
@@ -322,7 +322,7 @@ func (c *VC) convert(st *State, arg ast.Expr, to types.Type, call *ast.CallExpr)
 	if fs, ok := fu.(*types.Slice); ok {
 		if tIsBasic && tb.Info()&types.IsString != 0 {
 			if eb, ok := fs.Elem().Underlying().(*types.Basic); ok && eb.Kind() == types.Uint8 {
-				_, h := c.sliceHeap(st, c.byteSort())
+				_, h := c.sliceHeap(st, types.Typ[types.Uint8])
 				return mkCtor(c.strSort(), c.sel(h, mkField(v, "sl_base")), mkField(v, "sl_off"), mkField(v, "sl_len"))
 			}
 		}
@@ -433,7 +433,7 @@ func (c *VC) builtin(st *State, name string, call *ast.CallExpr) []*Term {
 			row := mk(fmt.Sprintf("(as const %s)", rs.Name), rs, c.zero(u.Elem()))
 			base := st.alloc
 			st.alloc = c.name("alloc", mk("+", sortInt, st.alloc, intLit64(1)))
-			hn, h := c.sliceHeap(st, es)
+			hn, h := c.sliceHeap(st, u.Elem())
 			st.heaps[hn] = mkStore(h, base, row)
 			return []*Term{mkCtor(c.sliceSort(), base, c.idxLit(0), n, cp)}
 		default:
@@ -515,11 +515,11 @@ func (c *VC) builtinAppend(st *State, call *ast.CallExpr) *Term {
 	it := types.Typ[types.Int]
 	t := c.typeOf(call)
 	elemT := t.Underlying().(*types.Slice).Elem()
-	es := c.sortOf(elemT)
+	_ = c.sortOf(elemT)
 	s := c.eval(st, call.Args[0])
 	s = c.coerce(st, s, c.typeOf(call.Args[0]), t)
 	base, off, ln, cp := mkField(s, "sl_base"), mkField(s, "sl_off"), mkField(s, "sl_len"), mkField(s, "sl_cap")
-	hn, h := c.sliceHeap(st, es)
+	hn, h := c.sliceHeap(st, elemT)
 	row := c.sel(h, base)
 	var k *Term // number of appended elements
 	var nrow *Term
@@ -527,7 +527,7 @@ func (c *VC) builtinAppend(st *State, call *ast.CallExpr) *Term {
 	if call.Ellipsis.IsValid() {
 		srcT := c.typeOf(call.Args[1])
 		src := c.eval(st, call.Args[1])
-		hn, h = c.sliceHeap(st, es)
+		hn, h = c.sliceHeap(st, elemT)
 		row = c.sel(h, base)
 		if b, ok := srcT.Underlying().(*types.Basic); ok && b.Info()&types.IsString != 0 {
 			k = mkField(src, "st_len")
@@ -542,7 +542,7 @@ func (c *VC) builtinAppend(st *State, call *ast.CallExpr) *Term {
 		for _, a := range call.Args[1:] {
 			vals = append(vals, c.coerce(st, c.eval(st, a), c.typeOf(a), elemT))
 		}
-		hn, h = c.sliceHeap(st, es)
+		hn, h = c.sliceHeap(st, elemT)
 		row = c.sel(h, base)
 		k = c.idxLit(int64(len(vals)))
 		nrow = row
@@ -572,11 +572,11 @@ func (c *VC) builtinCopy(st *State, call *ast.CallExpr) *Term {
 	it := types.Typ[types.Int]
 	dt := c.typeOf(call.Args[0])
 	elemT := dt.Underlying().(*types.Slice).Elem()
-	es := c.sortOf(elemT)
+	_ = c.sortOf(elemT)
 	d := c.eval(st, call.Args[0])
 	srcT := c.typeOf(call.Args[1])
 	src := c.eval(st, call.Args[1])
-	hn, h := c.sliceHeap(st, es)
+	hn, h := c.sliceHeap(st, elemT)
 	var sl, srow, soff *Term
 	if b, ok := srcT.Underlying().(*types.Basic); ok && b.Info()&types.IsString != 0 {
 		sl, srow, soff = mkField(src, "st_len"), mkField(src, "st_arr"), mkField(src, "st_off")
@@ -756,7 +756,7 @@ func (c *VC) havocCall(st *State, fn *types.Func, args []*Term, call *ast.CallEx
 			switch u := ptypes[i].Underlying().(type) {
 			case *types.Slice:
 				// a slice argument is its content: (row, offset, length); identity and capacity do not matter
-				_, h := c.sliceHeap(st, c.sortOf(u.Elem()))
+				_, h := c.sliceHeap(st, u.Elem())
 				uargs = append(uargs, c.sel(h, mkField(a, "sl_base")), mkField(a, "sl_off"), mkField(a, "sl_len"))
 			case *types.Pointer:
 				uargs = append(uargs, a)
@@ -1181,7 +1181,7 @@ func (c *VC) specUF(st *State, fi *FuncInfo, args []*Term) []*Term {
 			break
 		}
 		if u, ok := ps[i].Type().Underlying().(*types.Slice); ok {
-			_, h := c.sliceHeap(st, c.sortOf(u.Elem()))
+			_, h := c.sliceHeap(st, u.Elem())
 			uargs = append(uargs, c.sel(h, mkField(a, "sl_base")))
 		}
 	}
